@@ -8,6 +8,12 @@
 //!   data-dependent run-time errors is a failure.
 //! Stream F: families with custom operations / Join / Sort / Call / Iterate (instantiated) — oracle only.
 //! Stream S: `slice_index` on all result indices of accepted slices (model + in-range oracle).
+//! Stream E (`evalop`): every node of the covered operations that the oracle evaluates through
+//!   `SimpleEvaluator::evaluate_node` (small dependency values) is also a model request
+//!   `evalop <op> <dep types> <dep values>` answered by the evaluator's value (residues) — ties the
+//!   one-node evaluator `EvalOps.evalOp` of the Lean model to the real evaluator; a per-operation cap
+//!   bounds the stream; `stream_evalop` adds one-node graphs for the operations that the random
+//!   programs evaluate rarely.
 use crate::util::*;
 use crate::vals::*;
 use ciphercore_base::custom_ops::run_instantiation_pass;
@@ -1206,6 +1212,110 @@ fn allowed_runtime_error(op: &Operation, msg: &str) -> bool {
     }
 }
 
+// ---- `evalop` correspondence cases (model `EvalOps.evalOp` vs `evaluate_node`) ------------------
+
+thread_local! {
+    /// (cap per operation name, cases recorded so far per operation name); reset by `corr`
+    static EVALOP_BUDGET: std::cell::RefCell<(u64, std::collections::HashMap<String, u64>)> = std::cell::RefCell::new((0, std::collections::HashMap::new()));
+}
+
+fn evalop_reset(cap: u64) {
+    EVALOP_BUDGET.with(|b| *b.borrow_mut() = (cap, std::collections::HashMap::new()));
+}
+
+fn evalop_has_budget(name: &str) -> bool {
+    EVALOP_BUDGET.with(|b| {
+        let b = b.borrow();
+        b.1.get(name).copied().unwrap_or(0) < b.0
+    })
+}
+
+fn evalop_spend(name: &str) {
+    EVALOP_BUDGET.with(|b| *b.borrow_mut().1.entry(name.to_owned()).or_insert(0) += 1);
+}
+
+fn mask(x: u128, w: u32) -> u128 {
+    if w >= 128 {
+        x
+    } else {
+        x & ((1u128 << w) - 1)
+    }
+}
+
+/// number of scalar entries of a value of this type
+fn n_elems(t: &Type) -> u64 {
+    match t {
+        Type::Scalar(_) => 1,
+        Type::Array(s, _) => s.iter().product(),
+        Type::Vector(n, e) => n.saturating_mul(n_elems(e)),
+        Type::Tuple(ts) => ts.iter().map(|e| n_elems(e)).sum(),
+        Type::NamedTuple(fs) => fs.iter().map(|(_, e)| n_elems(e)).sum(),
+    }
+}
+
+/// value in the `evalop` encoding: `r:<residues>` for a scalar / array, `l:<n>` + children otherwise
+fn enc_ev(v: &Value, t: &Type) -> Option<String> {
+    match t {
+        Type::Scalar(st) => Some(format!("r:{}", mask(v.to_u128(*st).ok()?, st_bits(*st)))),
+        Type::Array(_, st) => {
+            let xs: Vec<u128> = v.to_flattened_array_u128(t.clone()).ok()?.into_iter().map(|x| mask(x, st_bits(*st))).collect();
+            Some(format!("r:{}", show_list(&xs)))
+        }
+        Type::Vector(_, _) | Type::Tuple(_) | Type::NamedTuple(_) => {
+            let ch = v.to_vector().ok()?;
+            let tys: Vec<Type> = match t {
+                Type::Vector(n, e) => (0..*n).map(|_| (**e).clone()).collect(),
+                Type::Tuple(ts) => ts.iter().map(|e| (**e).clone()).collect(),
+                Type::NamedTuple(fs) => fs.iter().map(|(_, e)| (**e).clone()).collect(),
+                _ => return None,
+            };
+            if ch.len() != tys.len() {
+                return None;
+            }
+            let mut s = format!("l:{}", ch.len());
+            for (c, ct) in ch.iter().zip(tys.iter()) {
+                s.push(' ');
+                s.push_str(&enc_ev(c, ct)?);
+            }
+            Some(s)
+        }
+    }
+}
+
+fn is_flat(t: &Type) -> bool {
+    t.is_scalar() || t.is_array()
+}
+
+/// operations evaluated by the model's `EvalOps.evalOp`
+fn evalop_covered(op: &Operation, dep_types: &[Type]) -> bool {
+    match op {
+        Operation::Add
+        | Operation::Subtract
+        | Operation::Multiply
+        | Operation::MixedMultiply
+        | Operation::Dot
+        | Operation::Matmul
+        | Operation::Gemm(_, _)
+        | Operation::Truncate(_)
+        | Operation::Sum(_)
+        | Operation::CumSum(_)
+        | Operation::PermuteAxes(_)
+        | Operation::Get(_)
+        | Operation::GetSlice(_)
+        | Operation::NOP
+        | Operation::Stack(_)
+        | Operation::Concatenate(_)
+        | Operation::A2B
+        | Operation::B2A(_)
+        | Operation::ArrayToVector
+        | Operation::VectorToArray
+        | Operation::Gather(_)
+        | Operation::InversePermutation => true,
+        Operation::Reshape(nt) => is_flat(nt) && dep_types.len() == 1 && is_flat(&dep_types[0]),
+        _ => false,
+    }
+}
+
 struct Ev {
     ev: SimpleEvaluator,
     rng: Rng,
@@ -1213,6 +1323,42 @@ struct Ev {
     counts: Vec<String>,
     checked: u64,
     depth: u32,
+    /// `evalop` model cases: (request, implementation's answer, nontrivial)
+    cases: Vec<(String, String, bool)>,
+}
+
+impl Ev {
+    /// record `evaluate_node`'s result on this node as a model case, when the operation is covered by
+    /// the model's one-node evaluator, the values are small and the operation's budget is not exhausted
+    fn record_evalop(&mut self, node: &Node, op: &Operation, name: &str, t: &Type, deps: &[Value], res: &ciphercore_base::errors::Result<Value>) {
+        let dep_types: Vec<Type> = match node.get_node_dependencies().iter().map(|d| d.get_type()).collect::<ciphercore_base::errors::Result<Vec<Type>>>() {
+            Ok(ts) => ts,
+            Err(_) => return,
+        };
+        if dep_types.len() != deps.len() || !evalop_covered(op, &dep_types) || !evalop_has_budget(name) {
+            return;
+        }
+        if dep_types.iter().any(|dt| n_elems(dt) > 64) || n_elems(t) > 256 {
+            return;
+        }
+        let enc = catch(|| -> Option<(String, String)> {
+            let mut req = format!("evalop {} {}", enc_op(op, None)?, enc_types(&dep_types));
+            for (d, dt) in deps.iter().zip(dep_types.iter()) {
+                req.push(' ');
+                req.push_str(&enc_ev(d, dt)?);
+            }
+            let ans = match res {
+                Ok(v) => format!("ok {}", enc_ev(v, t)?),
+                Err(_) => "ERR".to_owned(),
+            };
+            Some((req, ans))
+        });
+        if let Ok(Some((req, ans))) = enc {
+            evalop_spend(name);
+            let nontrivial = dep_types.iter().any(|dt| n_elems(dt) > 1);
+            self.cases.push((req, ans, nontrivial));
+        }
+    }
 }
 
 impl Ev {
@@ -1281,7 +1427,11 @@ impl Ev {
                     let n2 = node.clone();
                     let d2 = deps.clone();
                     let ev = &mut self.ev;
-                    match catch(move || ev.evaluate_node(n2, d2)) {
+                    let r = catch(move || ev.evaluate_node(n2, d2));
+                    if let Ok(res) = &r {
+                        self.record_evalop(node, &op, &name, &t, &deps, res);
+                    }
+                    match r {
                         Err(p) => {
                             self.fails.push((format!("C09:panic:{}", name), format!("{} node {} op {:?} deps [{}]: panic {}", prog, node.get_id(), op, deps.iter().map(|d| trunc(&enc_value(d), 200)).collect::<Vec<_>>().join(" | "), trunc(&p, 200))));
                             None
@@ -1326,8 +1476,13 @@ fn evaluate_program(run: &mut Run, rng: &mut Rng, main: &Graph, inputs: Vec<Valu
         Ok(e) => e,
         Err(_) => return,
     };
-    let mut e = Ev { ev, rng: rng.clone(), fails: vec![], counts: vec![], checked: 0, depth: 0 };
+    let mut e = Ev { ev, rng: rng.clone(), fails: vec![], counts: vec![], checked: 0, depth: 0, cases: vec![] };
     let out = e.graph(main, inputs, prog);
+    for (req, ans, nontrivial) in std::mem::take(&mut e.cases) {
+        let name = req.split(' ').nth(1).unwrap_or("?").to_owned();
+        run.case(req, ans, nontrivial);
+        run.count(&format!("evalop:{}", name));
+    }
     run.oracle_case(prog, true);
     run.count(if out.is_some() { "programs:evaluated" } else { "programs:stopped" });
     run.count_n("oracle:node-values-checked", e.checked);
@@ -1570,6 +1725,7 @@ fn stream_slices(run: &mut Run) {
 
 pub fn corr(run: &mut Run) {
     run.rule = "P: type-directed random programs (contexts with 0-3 finalized callee graphs + main graph, 6-19 steps; ~78% candidates built to fit the pool's types, ~22% malformed: arbitrary argument nodes, out-of-range axes, wrong ranks, mismatched scalar types, zero / empty / oversized dims, wrong dependency counts); each candidate is a model request `infer <op> <arg types>` answered by Graph::add_node + get_type; non-trivial = any candidate other than Input. Oracle: each finished program is evaluated twice node by node (SimpleEvaluator::evaluate_node, nested Call/Iterate) with check_type of every value. F: custom-op / join / sort / call families instantiated and evaluated the same way. S: slice_index on every result index of random slices.".to_owned();
+    evalop_reset(run.tier.scale(320, 3200) as u64);
     stream_programs(run);
     stream_families(run);
     stream_slices(run);
